@@ -337,7 +337,9 @@ class _IntMeta(type):
                 return x
             # python int() truncates toward zero
             f = z3.ToInt(x.z)
-            return PNum(z3.If(x.z >= 0, f, z3.If(z3.ToReal(f) == x.z, f, f + 1)))
+            if decide(x.z >= 0):
+                return PNum(f)
+            return PNum(z3.If(z3.ToReal(f) == x.z, f, f + 1))
         return builtins.int(x, *a)
 
 
